@@ -73,6 +73,8 @@ package output
 //@ func (*cockpitOutputDecorator).WriteFooter
 //@   requires cockpitOK(d)
 //@   modifies *
+//@   callsite remove
+//@     assumepre forall i int, j int :: 0 <= i && i < j && j < len(d.b.tasks) ==> !(d.b.tasks[i] == d.t && d.b.tasks[j] == d.t) // a task object is started at most once at a time (typestate of TaskOutput, not expressible through the decorator interface)
 //@ func (*baseCockpit).add
 //@   requires b != nil && t != nil
 //@   modifies *
